@@ -53,9 +53,11 @@ CHECKS['C20'] = ('proof', 'Declaration/definition decomposition around the same 
 
 CHECKS['C13'] = ('proof', 'On a byte-exact Gallina model of the whole pipeline (configuration objects + Builder.build): every failure is one of the '
                  'library error types (Internal/TypeError/ValueError outcomes exist in the model and are proved unreachable), a success returns exactly '
-                 'shell.hh, shell.cc and the six stand-alone support files, and success implies encapsulee/port-type validity (Properties/C13.v). '
+                 'shell.hh, shell.cc and the six stand-alone support files, and a build succeeds IF AND ONLY IF the input is valid, validity being stated on model and '
+                 'configuration alone (Spec/ValidInput.v: unique component/system encapsulee, consistent port selection, unique interface per port, semantics for every exposed port, '
+                 'unique extern per spelled-out parameter type, fitting multi-client settings, non-empty shell name) (Properties/C13.v). '
                  'Correspondence: valid generated (model, configuration) pairs and every single-fault variation, each built twice, compared byte for byte with the model.',
-                 'partial: the completeness half of "valid iff succeeds" is covered by the correspondence (valid generated inputs must build), not by a theorem. '
+                 'The theorem is about Builder.build on constructed configuration objects; termination is Coq\'s; "never hangs" for the implementation is run-time evidence. '
                  'Repaired defects F4, F6, F7, F8. Known finding K5 (recursion limit) probed on every run.', '§5 C13')
 
 CHECKS['C07'] = ('proof', 'Lookup = declarations on the scope chain; declarations off the chain never change a lookup; the interface of every exposed '
